@@ -16,7 +16,7 @@ RULE = ("a FakeBLE object on a simulated radio; a case = (MAC form, name None/st
         "len_available() and the ValueError boundary are compared with the decoded packet. "
         "Non-trivial: a packet was decoded or a rejection observed; distinct = (name length/type, "
         "pa flag/level, chunk lengths, form, channel history).")
-RULE += (" Later rounds added: the MAC as assigned (ints with zero upper bytes; either byte order), repeated advertisements with the same chunk objects and the TX power changed in between.")
+RULE += (" Later rounds added: the MAC as assigned (ints with zero upper bytes; either byte order), repeated advertisements with the same chunk objects and the TX power changed in between, another object setting its own static payload length in its block, the BLE object's attributes read between blocks, the public CRC helper used with another polynomial first.")
 REQUIRED = {"decoded_by_phone": 800, "fields_match": 800, "len_available": 800,
             "valueerror_boundary": 300, "channel_histories": 300}
 BUDGET = {"quick": 480, "thorough": 900}
@@ -24,6 +24,7 @@ BUDGET = {"quick": 480, "thorough": 900}
 
 def gen_cases(ctx):
     rng = ctx.sub_rng("c18")
+    rng2 = ctx.sub_rng("c18b")  # later additions draw from their own stream
     n = 6000 if ctx.tier == "quick" else 200000
     for i in range(n):
         name_len = rng.choice([None, None, 0, 1, 3, 8, 14, 15, 16, 17, 18, 19, 20, rng.randrange(0, 21)])
@@ -36,6 +37,16 @@ def gen_cases(ctx):
                 hist.append(["channel", rng.choice([2, 26, 80, 2, 26, 80, 76, 0, 125, 37, -1])])
             else:
                 hist.append(["with_other", rng.choice([2, 26, 80, 40, 76])])
+        for h in hist:
+            if h[0] == "with_other":
+                # what else the other object does with the radio in its block (a static payload
+                # length of its own), and whether the application looks at the BLE object's
+                # attributes before it re-enters that object's block
+                h += [rng2.choice([None, 8, 20, 32]), rng2.random() < 0.5]
+        if rng2.random() < 0.15:
+            # the module's public CRC helper used for something else first (another polynomial)
+            hist.insert(rng2.randrange(len(hist) + 1), ["crc_other", rng2.choice([0x5B06, 0x1021, 0x864CFB]),
+                                                         rng2.randrange(1 << 16)])
         yield {"name_len": name_len, "name_type": rng.choice(["str", "bytes", "bytearray"]),
                "pa": rng.random() < 0.4, "pa_level": rng.choice([-18, -12, -6, 0]),
                "pa_first": rng.random() < 0.5,
@@ -137,10 +148,22 @@ def run_case(ctx, case):
                     ble.channel = h[1]
                 except ValueError:
                     pass
+            elif h[0] == "crc_other":
+                import random as _r
+                buf = bytes(_r.Random(h[2]).randrange(256) for _ in range(40))
+                for n in (0, 1, 7, 23, 40):
+                    repo()["fake_ble"].crc24_ble(buf[:n], h[1], 0xABCDEF)
+                repo()["fake_ble"].crc24_ble(bytes(range(256)), h[1])
+                ctx.count("crc_helper_used_with_another_polynomial")
             else:
                 ble.__exit__(None, None, None)
                 with other as o:
                     o.channel = h[1]
+                    if len(h) > 2 and h[2]:
+                        o.payload_length = h[2]
+                if len(h) > 3 and h[3]:
+                    (ble.payload_length, ble.len_available(), ble.name, ble.channel, ble.pa_level)
+                    ctx.count("ble_attributes_read_between_blocks")
                 ble.__enter__()
                 # leaving the block forgets name / show_pa_level (documented in __exit__): re-apply
                 name_now = ble.name
